@@ -341,7 +341,7 @@ func (g *typeGen) fillMessage(rec *Record, refs []string) {
 type EvolveConfig struct {
 	Prob        float64 // probability that a message is evolved (default 0.7)
 	MaxNew      int     // maximum new fields per message (default 3)
-	Undeprecate float64 // probability that a field deprecated in v1 is live in v2 (default 0.5)
+	Undeprecate float64 // probability that a field deprecated in v1 is live in v2 (default 0.5); -1: every other one, starting with the first
 	Gen         Config  // shape restrictions for the types of new fields
 }
 
@@ -385,8 +385,13 @@ func Evolve(rng *rand.Rand, v1 File, cfg EvolveConfig) (File, EvolveInfo) {
 		if r.Kind != Message {
 			return
 		}
+		nthDeprecated := 0
 		for i := range r.Fields {
-			if r.Fields[i].Deprecated && rng.Float64() < cfg.Undeprecate {
+			if !r.Fields[i].Deprecated {
+				continue
+			}
+			nthDeprecated++
+			if (cfg.Undeprecate < 0 && nthDeprecated%2 == 1) || (cfg.Undeprecate >= 0 && rng.Float64() < cfg.Undeprecate) {
 				r.Fields[i].Deprecated = false
 				info.Undeprecated[r.Name] = append(info.Undeprecated[r.Name], r.Fields[i].Index)
 			}
@@ -432,6 +437,7 @@ func EvolveBase() File {
 		{Name: "a", Index: 1, Type: Prim("uint32")},
 		{Name: "b", Index: 2, Type: Prim("string")},
 		{Name: "c", Index: 4, Type: Array(Prim("int16")), Deprecated: true},
+		{Name: "d", Index: 5, Type: Prim("string"), Deprecated: true},
 	}}
 	evEmpty := &Record{Kind: Message, Name: "Ev0"}
 	inStruct := &Record{Kind: Struct, Name: "InStruct", Fields: []Field{
@@ -470,6 +476,24 @@ func EvolveBase() File {
 			{Name: "after", Type: Prim("uint8")},
 		}}},
 	}}
+	// a message declared inline as a union branch and used by a sibling branch (struct and message), with a field after it
+	sibUnion := &Record{Kind: Union, Name: "SibUnion", Branches: []Branch{
+		{Disc: 1, Rec: &Record{Kind: Message, Name: "SibEv", Fields: []Field{
+			{Name: "a", Index: 1, Type: Prim("uint32")},
+		}}},
+		{Disc: 2, Rec: &Record{Kind: Struct, Name: "SibPair", Fields: []Field{
+			{Name: "m", Type: Named("SibEv")},
+			{Name: "tail", Type: Prim("uint32")},
+			{Name: "ms", Type: Array(Named("SibEv"))},
+			{Name: "end", Type: Prim("uint16")},
+		}}},
+		{Disc: 3, Rec: &Record{Kind: Message, Name: "SibMsg", Fields: []Field{
+			{Name: "m", Index: 1, Type: Named("SibEv")},
+			{Name: "tail", Index: 2, Type: Prim("uint32")},
+			{Name: "mm", Index: 3, Type: Map("uint8", Named("SibEv"))},
+			{Name: "end", Index: 4, Type: Prim("string")},
+		}}},
+	}}
 	unionHolder := &Record{Kind: Struct, Name: "HoldsUnion", Fields: []Field{
 		{Name: "u", Type: Named("InUnion")},
 		{Name: "after", Type: Prim("uint32")},
@@ -493,5 +517,5 @@ func EvolveBase() File {
 		{Name: "o", Index: 3, Type: Named("Outer")},
 		{Name: "tail", Index: 4, Type: Prim("string")},
 	}}
-	return File{Records: []*Record{ev, evEmpty, inStruct, inArray, inMap, inMsg, inUnion, unionHolder, outer, outerMsg}}
+	return File{Records: []*Record{ev, evEmpty, inStruct, inArray, inMap, inMsg, inUnion, unionHolder, outer, outerMsg, sibUnion}}
 }
